@@ -86,7 +86,11 @@ def parse_vc(ident, text):
             elif key == "mutself":
                 fs.mutself = val in ("yes", "true"); sec = None
             elif key == "attr":
-                fs.attrs.append(val); sec = None
+                if "external_body" in val:
+                    fs.nobody = True
+                else:
+                    fs.attrs.append(val)
+                sec = None
             elif key == "vis":
                 fs.vis = val; sec = None
             elif key == "rewrite":
@@ -646,7 +650,7 @@ def _process(unit, path, twin):
             elif cmd == "use":
                 ws = arg.split()
                 fs = load_vc(ws[0])
-                fs.nobody = "nobody" in ws[1:]
+                fs.nobody = fs.nobody or "nobody" in ws[1:]
                 if twin and not fs.nobody:
                     fs.ensures.append(Clause("ensures", "VACUITY", ["_vacuity"], "false"))
                 add_fn(unit, fs)
@@ -661,7 +665,7 @@ def _process(unit, path, twin):
                 i += 1
                 ident = arg.split()[0]
                 fs = parse_vc(ident, "\n".join(blk))
-                if twin:
+                if twin and not fs.nobody:
                     fs.ensures.append(Clause("ensures", "VACUITY", ["_vacuity"], "false"))
                 add_fn(unit, fs)
             else:
